@@ -123,28 +123,31 @@ def eval_test(n: ast.AST, env: dict[str, bool]) -> bool:
     raise AnalysisError(f"condition `{t}` is not a boolean combination of {sorted(env)}")
 
 
-def outcome_under(fn: ast.FunctionDef, env: dict[str, bool], inline_locals: bool = True) -> str:
-    """'raise' / 'return' : how a loop-free function leaves when its tests (boolean combinations of the atoms in env) have the given
-    truth values.  Statements other than tests are assumed to complete normally.  AnalysisError when a test is not expressible."""
-    g = CFG(fn)
-    la = last_assignments(fn) if inline_locals else {}
-    n, steps = 0, 0  # ENTRY
+def leave_under(fn: ast.FunctionDef, env: dict[str, bool], inline_locals: bool = True) -> tuple[str, ast.stmt | None]:
+    """('raise' | 'return', the statement that leaves): how a loop-free function leaves when its tests (boolean combinations of the atoms in
+    env) have the given truth values.  Statements other than tests are assumed to complete normally.  AnalysisError when a test is not
+    expressible.  Unlike path conditions (tests that dominate a statement), this follows ONE path per truth assignment, so a statement
+    reached through several branches (a return after nested ifs) is handled exactly."""
     from .cfg import ENTRY, EXIT, RAISE
 
-    n = ENTRY
+    g = CFG(fn)
+    la = last_assignments(fn) if inline_locals else {}
+    n, steps, last = ENTRY, 0, None
     while True:
         steps += 1
         if steps > 500:
             raise AnalysisError(f"{fn.name}: loop while evaluating the outcome")
         if n == EXIT:
-            return "return"
+            return "return", last if isinstance(last, ast.Return) else None
         if n == RAISE:
-            return "raise"
+            return "raise", last
         node = g.nodes[n]
+        if node.kind == "stmt" and isinstance(node.stmt, ast.stmt):
+            last = node.stmt
         if isinstance(node.stmt, ast.Raise) and node.kind == "stmt":
             outs = [m for m, lab in g.succ[n] if lab == "exc"]
             if outs == [RAISE]:
-                return "raise"
+                return "raise", node.stmt
             raise AnalysisError(f"{fn.name}: raise inside try not modelled for outcome evaluation")
         if node.kind == "test":
             val = eval_test(inline(node.ast, la) if la else node.ast, env)
@@ -154,6 +157,25 @@ def outcome_under(fn: ast.FunctionDef, env: dict[str, bool], inline_locals: bool
         if len(outs) != 1:
             raise AnalysisError(f"{fn.name}: {len(outs)} successors at `{node.text()[:40]}` while evaluating the outcome")
         n = outs[0]
+
+
+def outcome_under(fn: ast.FunctionDef, env: dict[str, bool], inline_locals: bool = True) -> str:
+    return leave_under(fn, env, inline_locals)[0]
+
+
+def value_table(fi: FunctionInfo, atoms: list[str], keep: tuple[str, ...] = ()) -> dict[tuple[bool, ...], set[str]]:
+    """like possible_values(return_facts(fi), atoms), but by following the one path each truth assignment selects: the canonical text of the
+    returned expression ('<raise>' when the path raises)"""
+    import itertools
+
+    out: dict[tuple[bool, ...], set[str]] = {}
+    for combo in itertools.product([True, False], repeat=len(atoms)):
+        kind, st = leave_under(fi.node, dict(zip(atoms, combo)))
+        if kind == "raise":
+            out[combo] = {"<raise>"}
+        else:
+            out[combo] = {canon(fi.node, st.value, keep) if isinstance(st, ast.Return) and st.value is not None else "None"}
+    return out
 
 
 def has_cond(conds, atom: str, value: bool) -> bool:
